@@ -145,6 +145,9 @@ func init() {
 	reg(&Rule{ID: "R-OFFGUARD", Min: 6,
 		Doc: "match copies are dominated by the rejection of Offset > min(len(Data)[+LitLen], WindowSize) and of Offset==0 ∧ MatchLen>0; Literals[:LitLen] by LitLen ≤ len(Literals)",
 		Run: ruleOffGuard})
+	reg(&Rule{ID: "R-DRAIN-COMPLETE", Min: 1,
+		Doc: "DecoderBuffer.WriteTo returns a nil error only if the writer accepted every pending byte (the io.WriterTo contract; a short count with a nil error is turned into an error): Flush cannot succeed on a partial write and the Decoder's retry loops may rely on a successful drain",
+		Run: ruleDrainComplete})
 	reg(&Rule{ID: "R-BLK-READONLY", Min: 1,
 		Doc: "DecoderBuffer.WriteBlock and Decoder.WriteBlock never store through the caller's Sequences/Literals arrays",
 		Run: ruleBlkReadOnly})
@@ -1534,6 +1537,12 @@ func (c *Ctx) checkRetry(fi *FuncInfo, rl retryLoop, key string, pos token.Pos) 
 		c.ok(key, pos, "T-RETRY(c): every back edge is taken only after a strictly positive count produced in the iteration (bytes accepted, items consumed, bytes drained)")
 		return
 	}
+	// templates (a) and (b) argue that one complete drain frees enough room; a writer that merely returns may
+	// accept nothing without an error, so the back edge behind the drain must also require that it wrote something
+	if ok, _ := c.drainComplete(); !ok && !c.drainProgress(fi, rl) {
+		c.fail(key, pos, "T-RETRY: the loop retries after draining to the writer although the drain may have written nothing without reporting an error (WriteTo passes a short count with a nil error on, and the loop does not test the count): a writer that returns (0, nil) keeps the buffer full and Decoder.%s spins", fn.Name())
+		return
+	}
 	switch callee.Name() {
 	case "WriteByte":
 		// (a) constant-size request and WindowSize < BufferSize by Verify
@@ -1563,6 +1572,161 @@ func (c *Ctx) checkRetry(fi *FuncInfo, rl retryLoop, key string, pos token.Pos) 
 		return
 	}
 	c.fail(key, pos, "T-RETRY: the retry loop around DecoderBuffer.%s has no back-edge progress test and no size clamp: an item larger than the attainable free space makes it spin", callee.Name())
+}
+
+// drainComplete: DecoderBuffer.WriteTo returns a nil error only when the writer took everything that was pending:
+// on every way a value reaches the returned error, that value is a non-nil error, or the way carries the writer's
+// error ≠ nil, or it carries count ≥ len(slice handed to the writer).
+func (c *Ctx) drainComplete() (bool, string) {
+	if c.drainOK != nil {
+		return *c.drainOK, c.drainWhy
+	}
+	set := func(ok bool, why string) (bool, string) {
+		c.drainOK, c.drainWhy = &ok, why
+		return ok, why
+	}
+	fn := c.method(c.decBuf(), "WriteTo")
+	if fn == nil {
+		return set(false, "DecoderBuffer.WriteTo not found")
+	}
+	fi := c.info(fn)
+	// the writer call: an invoke of Write on the io.Writer parameter
+	var wcall *ssa.Call
+	for _, b := range fn.Blocks {
+		for _, in := range b.Instrs {
+			if call, ok := in.(*ssa.Call); ok && call.Call.IsInvoke() && call.Call.Method.Name() == "Write" {
+				if wcall != nil {
+					return set(false, "more than one writer call in WriteTo")
+				}
+				wcall = call
+			}
+		}
+	}
+	if wcall == nil || len(wcall.Call.Args) != 1 {
+		return set(false, "no single w.Write(p) call in WriteTo")
+	}
+	var cnt, werr ssa.Value
+	for _, r := range *wcall.Referrers() {
+		if ex, ok := r.(*ssa.Extract); ok {
+			if ex.Index == 0 {
+				cnt = ex
+			} else {
+				werr = ex
+			}
+		}
+	}
+	if cnt == nil || werr == nil {
+		return set(false, "the writer's count or error is discarded in WriteTo")
+	}
+	want := fi.lenOf(wcall.Call.Args[0]).sub(fi.lin(cnt)) // len(p) − k ≤ 0
+	for _, b := range fn.Blocks {
+		r, ok := b.Instrs[len(b.Instrs)-1].(*ssa.Return)
+		if !ok || len(r.Results) == 0 {
+			continue
+		}
+		last := r.Results[len(r.Results)-1]
+		for _, lf := range mergeLeaves(last) {
+			if nl, ok := fi.nilLin(lf.V); ok && nl.isConst() && nl.c == 0 {
+				continue // a non-nil error value
+			}
+			if ld, ok := lf.V.(*ssa.UnOp); ok && ld.Op == token.MUL {
+				if g, ok := ld.X.(*ssa.Global); ok && isErrorType(g.Type().(*types.Pointer).Elem()) && g.Pkg != nil && g.Pkg.Pkg.Path() == "io" {
+					continue // io.ErrShortWrite and the like: package-level errors of the standard library
+				}
+			}
+			conds := append([]Cond{}, fi.condsAt(b)...)
+			if lf.Pred != nil {
+				conds = append(conds, fi.edgeConds(lf.Pred, lf.Phi.Block())...)
+			}
+			if lf.V != werr {
+				if k, isC := lf.V.(*ssa.Const); isC && k.Value == nil {
+					// explicit nil: only under a complete write
+					if fi.proveLE0(want, conds, nil, map[string]bool{}, 0) {
+						continue
+					}
+				}
+				return set(false, "WriteTo returns an error value that is neither the writer's nor a fixed non-nil error")
+			}
+			nonNil := false
+			for _, cd := range conds {
+				if isNilCmp(cd, werr) == +1 {
+					nonNil = true
+				}
+			}
+			if nonNil || fi.proveLE0(want, conds, nil, map[string]bool{}, 0) {
+				continue
+			}
+			return set(false, "WriteTo can return the writer's nil error although the writer accepted fewer bytes than it was handed")
+		}
+	}
+	return set(true, "")
+}
+
+func ruleDrainComplete(c *Ctx) {
+	ok, why := c.drainComplete()
+	fn := c.method(c.decBuf(), "WriteTo")
+	pos := token.NoPos
+	if fn != nil {
+		pos = fn.Pos()
+	}
+	c.check(ok, "lz.(*DecoderBuffer).WriteTo:complete-or-error", pos, "a nil error means the writer took every pending byte (a short count with a nil error becomes an error)",
+		why+": Flush reports success although the writer has not received the full expansion, and the retry loops of Decoder.Write/WriteByte, which rely on a successful drain having emptied the buffer, spin on a writer that accepts nothing")
+}
+
+// drainProgress: every back edge that is taken after the drain call of the iteration carries count ≥ 1 for the
+// number of bytes the drain wrote.
+func (c *Ctx) drainProgress(fi *FuncInfo, rl retryLoop) bool {
+	l := rl.Loop
+	counts := map[string]bool{}
+	for b := range l.Blocks {
+		for _, in := range b.Instrs {
+			if ex, ok := in.(*ssa.Extract); ok && isIntType(ex.Type()) {
+				if call, ok := ex.Tuple.(*ssa.Call); ok && call == rl.Drain {
+					counts[ex.Name()] = true
+				}
+			}
+		}
+	}
+	if len(counts) == 0 {
+		return false
+	}
+	positive := func(conds []Cond) bool {
+		check := func(cs []Cond) bool {
+			for _, f := range fi.factsOf(cs) {
+				for a, co := range f.L.t {
+					if !counts[a] || len(f.L.t) != 1 {
+						continue
+					}
+					if f.Op == NE && f.L.c == 0 {
+						return true
+					}
+					if f.Op == LE && co == -1 && f.L.c >= 1 {
+						return true
+					}
+				}
+			}
+			return false
+		}
+		if alts := fi.expandConds(conds); alts != nil {
+			for _, alt := range alts {
+				if !check(alt) {
+					return false
+				}
+			}
+			return len(alts) > 0
+		}
+		return check(conds)
+	}
+	db := rl.Drain.Block()
+	for _, la := range l.Latches {
+		if !(la == db || db.Dominates(la)) {
+			continue // this back edge is not behind the drain
+		}
+		if !positive(fi.edgeConds(la, l.Header)) {
+			return false
+		}
+	}
+	return true
 }
 
 // backEdgesHaveProgress: for each latch→header edge, on every way into the
